@@ -1037,7 +1037,7 @@ func runSlotRelease(c *core.Ctx) {
 			// replying only when Ready(id)
 			ready := false
 			for _, g := range an.Guards(host, rel.Block()) {
-				if call, ok := g.V.(*ssa.Call); ok && g.True && strings.HasSuffix(an.CalleeName(&call.Call), ").Ready") && tr(call.Call.Args[1]) == id {
+				if call, ok := g.V.(*ssa.Call); ok && g.True && strings.HasSuffix(an.CalleeName(&call.Call), ").Ready") && len(call.Call.Args) >= 2 && tr(call.Call.Args[1]) == id {
 					ready = true
 				}
 			}
